@@ -56,3 +56,9 @@ func VerifReadIdleHandler(idleTime time.Duration) ChannelInboundHandler {
 func VerifWriteIdleHandler(idleTime time.Duration) ChannelOutboundHandler {
 	return &writeIdleHandler{idleTime: idleTime}
 }
+
+// VerifInvokeMethod runs fn inside the recover scope the read loop and
+// Channel.Write/Trigger use for every pipeline invocation.
+func VerifInvokeMethod(ch Channel, fn func()) {
+	ch.(*channel).invokeMethod(fn)
+}
